@@ -1,11 +1,14 @@
 //! Dispatch from property ids to engines.
 pub mod asmcheck;
 pub mod codegen;
+pub mod determinism;
 pub mod e2e;
 pub mod format;
 pub mod heapbfs;
+pub mod robust;
 pub mod runtime;
 pub mod selftest;
+pub mod size;
 pub mod stages;
 pub mod subst;
 pub mod typecheck;
@@ -36,6 +39,9 @@ pub fn run_worker(check: &str, ctx: &WorkerCtx, _extra: &[String]) -> Report {
         "C14" => asmcheck::worker(ctx),
         "C15" => typecheck::worker(ctx),
         "C16" => format::worker(ctx),
+        "C17" => determinism::worker(ctx),
+        "C18" => robust::worker(ctx),
+        "C19" => size::worker(ctx),
         "C20" => runtime::worker(ctx),
         "C13" => {
             let mut r = codegen::worker(ctx, Arch::X86, codegen::Mode::CallConv);
@@ -294,6 +300,36 @@ pub fn run_check(id: &str, tier: Tier) -> i32 {
             };
             finish(&meta, tier, started, rep, Map::new())
         }
+        "C17" => {
+            let rep = run_sharded(id, tier, &[]);
+            let meta = CheckMeta {
+                property: "C17",
+                level: "model_checking",
+                rule: "three owned sources of nondeterminism, each enumerated exhaustively within its bound. History: for every sequence of <= 2 (quick) / <= 3 (thorough) earlier compilations over an 8-program alphabet, run in a fresh child process, the target (each of the 8) is compiled afterwards and every printable stage (Core, focused, shrunk, linearized, three assemblies) is compared with the fresh-process result after renumbering generated label suffixes in order of first occurrence. Hash seeds: an LD_PRELOAD shim makes getrandom() a function of VERIF_HASH_SEED; for seeds 0..15 (quick) / 0..255 (thorough) x a corpus (repository examples, testsuite programs, the history programs, a program with ten type instances) fresh processes must produce byte-identical output for every stage. Environment: the real scc subcommands compile/focus/shrink/linearize/codegen under 7 environments (cleared environment, TERM, COLUMNS, NO_COLOR, LANG/LC_ALL, another working directory): the text files written must be byte-identical. States = (history | seed | environment, stage) pairs; transitions = compilations.".into(),
+                assumptions: vec!["Rust's std obtains its hash keys through the libc getrandom symbol (the shim's effect is visible: before the instance-order fix different seeds gave different outputs)".into()],
+            };
+            finish(&meta, tier, started, rep, Map::new())
+        }
+        "C18" => {
+            let rep = run_sharded(id, tier, &[]);
+            let meta = CheckMeta {
+                property: "C18",
+                level: "exploration",
+                rule: "(i) every token sequence of length <= 3 (quick) / <= 4 (thorough) over a 58-token alphabet of the lexer (symbols, keywords, names, literals incl. 2^63, comment, whitespace), bare and after two valid prefixes; every string of <= 2 / <= 3 characters over printable ASCII plus multi-byte characters, bare and inside a definition body; (ii) every single-token deletion, and replacement by / insertion of each alphabet token, at every position of a corpus (repository examples, testsuite files incl. the rejected ones, an all-forms program); (iii) boundary literals in five placements; (iv) nesting depth up to 64 (256 thorough) of eleven nestable constructs; (v) entry-point shapes (no main, 0..7 parameters, non-integer parameters/results, duplicate main). Parsing and checking must return; accepted programs with a valid entry point must pass translation, focusing, shrinking, linearization and three code generators without a panic other than the capacity assertions. A slice (all single bytes bare and inside a body, invalid UTF-8, BOM, empty file) goes through the real scc binary (check, compile): no exit status 101, no 'panicked at', no signal. Non-trivial/distinct = distinct input texts.".into(),
+                assumptions: vec!["workers run on a 1 GiB stack; stack exhaustion is outside the property".into()],
+            };
+            finish(&meta, tier, started, rep, Map::new())
+        }
+        "C19" => {
+            let rep = run_sharded(id, tier, &[]);
+            let meta = CheckMeta {
+                property: "C19",
+                level: "exploration",
+                rule: "nine scalable families (sequenced conditionals, nested conditionals, sequenced matches over a 2- and a 3-constructor type, chains of lets over matches, label-induced critical pairs at a 3-constructor type, conditionals inside match clauses, sequenced conditionals at a codata type, matches in call arguments) at every depth k = 1..12 (quick) / 1..16 (thorough) go through the real pipeline; printed size of the Core, focused, shrunk and linearized programs and instruction counts of the x86-64 and AArch64 files must satisfy size(k+1)/size(k) <= 1.5 for k >= 8 and size(kmax) <= 64 * source_size^2. Distinct = distinct (family, depth).".into(),
+                assumptions: vec!["printed length stands for node count".into()],
+            };
+            finish(&meta, tier, started, rep, Map::new())
+        }
         "C20" => {
             let rep = run_sharded(id, tier, &[]);
             let meta = CheckMeta {
@@ -357,6 +393,21 @@ pub fn replay(id: &str, path: &str) -> i32 {
             }
             Ok(None) => {
                 println!("[{id}] replay: executable behaves like the source");
+                0
+            }
+            Err(e) => {
+                eprintln!("replay failed: {e}");
+                2
+            }
+        },
+        Some("input") => match robust::replay(case) {
+            Ok(Some(msg)) => {
+                println!("[{id}] replay: {msg}");
+                println!("VIOLATION property={id} replay={path}");
+                1
+            }
+            Ok(None) => {
+                println!("[{id}] replay: no crash");
                 0
             }
             Err(e) => {
